@@ -57,7 +57,7 @@ func init() {
 		joinLen := r.Pick(2, 3)
 		r.Bound = map[string]interface{}{"single_input_history_len": L, "watermarked_history_len": optsB.MaxLen, "histories": len(hist), "nodes": len(specs),
 			"join_events_per_side": joinLen}
-		r.Rule = "every valid changelog (rows (1,1),(1,2),(2,1),(NULL,1); inserts and retractions of present rows; a family with zero event times and a family with event times {1,2} plus monotone watermarks) up to the length bound, replayed on a fresh instance of every single-input execution node; joins: every pair of per-side changelogs (zero event times, keys {1,2}, duplicates, retractions) x every interleaving under the join controller; histories of up to 4 events are additionally run twice on one node instance (as below a LOOKUP JOIN) and must emit the same stream; state = (node, history prefix); non-trivial = history containing a retraction whose expected output is non-empty"
+		r.Rule = "every valid changelog (rows (1,1),(1,2),(2,1),(NULL,1); inserts and retractions of present rows; a family with zero event times and a family with event times {1,2} plus monotone watermarks) up to the length bound, replayed on a fresh instance of every single-input execution node; joins: every pair of per-side changelogs (zero event times, keys {1,2}, duplicates, retractions) x every interleaving under the join controller; joins also with a plain (zero event time) input against a watermarked input in both roles; histories of up to 4 events are additionally run twice on one node instance (as below a LOOKUP JOIN) and must emit the same stream; state = (node, history prefix); non-trivial = history containing a retraction whose expected output is non-empty"
 		r.Assume("input never retracts an absent row", "no late records", "NULL join keys are C02's business and are not used for the join part", "LIMIT is not in the property's operator list and is not checked here")
 
 		type job struct {
@@ -143,6 +143,20 @@ func init() {
 					}
 					for _, s := range short {
 						jjobs = append(jjobs, jjob{k, l, s}, jjob{k, s, l})
+					}
+				}
+			}
+		}
+		// mixed family: one input without event times (a plain table, processed on arrival) against one with event times and
+		// watermarks (buffered), both roles: the two code paths of the join loop meet when the timed input ends while it
+		// still buffers records and the plain input keeps sending
+		{
+			plain := stream.GenScripts(stream.ScriptOpts{Keys: []int{1}, Payloads: []int{1, 2}, Times: []int{0}, MaxLen: 2, Retractions: true})
+			timed := stream.GenScripts(stream.ScriptOpts{Keys: []int{1}, Payloads: []int{1}, Times: []int{1, 2}, MaxLen: 2, Retractions: true, Watermarks: true})
+			for _, k := range joinKinds {
+				for _, p := range plain {
+					for _, t := range timed {
+						jjobs = append(jjobs, jjob{k, p, t}, jjob{k, t, p})
 					}
 				}
 			}
